@@ -11,7 +11,7 @@ META = {'claimed': True,
                'does decode-then-print (C15_sock_addr_prettyprint_no_fault, C15_deserialize_then_prettyprint_no_fault; regression for repaired defect F14); aws_readkeys and readpass_file for every '
                'file content and prior stack-buffer content, fgets never given more than the buffer holds (sizes regenerated) (C15_aws_readkeys_no_fault, C15_readpass_file_no_fault); getopt: every '
                'read of argv strings, the packed-option cursor, strncmp inside searchopt and optarg stays inside the terminated strings, loop terminates, final optind in range (C15_getopt_no_fault, '
-               'C15_switch_no_fault: aborts iff the registration pass refuses the table, never for a well-formed one; C15_searchopt_in_bounds, C15_getopt_optind_range). 25 theorems + the hex one. '
+               'C15_switch_no_fault: aborts iff the registration pass refuses the table, never for a well-formed one; C15_searchopt_in_bounds, C15_getopt_optind_range). 22 theorems + the hex one. '
                'Bound to the C by correspondence runs under ASan/UBSan with every input in a heap block of exactly its size (arbitrary, truncated and mutated inputs; implementation result = model '
                'result, which is proved never to fault). KNOWN FINDING F11 (listed): json_find recurses once per nesting level without a depth limit; ~262,000 unclosed brackets exhaust an 8 MiB '
                'stack - outside the Gallina model (no stack), probed on the compiled code and reported as KNOWN-FINDING.',
